@@ -88,6 +88,10 @@ func TestVerifProber(t *testing.T) {
 	bo(1, 1, 3)
 	bo(3, 1000, 1)
 	bo(1<<53, 1<<53, 2)
+	// known findings K3 / K4: arguments outside the range in which the float arithmetic is exact / non-negative
+	bo(-2, 5, 1)
+	bo(1<<53+1, 1<<53+1, 0)
+	bo(9223372036854775807, 9223372036854775807, 0)
 	t4(nil, nil)
 	t4([]string{}, []string{"gfet4t7; dur=5"})
 	t4([]string{"gfet4t7; dur=12"}, []string{"gfet4t7; dur=5"})
@@ -98,6 +102,7 @@ func TestVerifProber(t *testing.T) {
 	t4([]string{"gfet4t7; dur=1_0"}, nil)
 	t4([]string{"gfet4t7; dur=9223372036854775808"}, nil)
 	t4([]string{"gfet4t7; dur=9223372036854"}, nil)
+	t4([]string{"gfet4t7; dur=9223372036855"}, nil) // known finding K5: the millisecond value overflows time.Duration
 	t4([]string{"gfet4t7; dur= 5"}, nil)
 	t4([]string{"gfet4t7;dur=5", "x"}, []string{"gfet4t7; dur=1"})
 	for _, pt := range []string{"noop", "stale_read", "strong_query", "stale_query", "dml", "read_write", "", "NOOP", "noop ", "x"} {
